@@ -1,6 +1,6 @@
 (* C17 - a reused parser, encoder, iterator or unfolder behaves like a fresh one.
    Statements only; proofs are in Cbor/RoundtripProofs.v. *)
-From SF Require Import Base.Prelude Core.Events Cbor.Enc Cbor.RoundtripProofs.
+From SF Require Import Base.Prelude Core.Events Cbor.Enc Cbor.RoundtripProofs Json.Enc Json.EncProofs.
 
 (* CBOR encoder: completing any well-formed document returns the length stack (the
    encoder's only nesting state) to exactly what it was before, from any state. *)
@@ -9,3 +9,20 @@ Theorem C17_cbor_enc_idle : forall t e i, wf_tree t = true -> tree_small t = tru
   exists e', cbor_run e (flatten t) i = (e', None) /\ ce_len e' = ce_len e.
 Proof. exact RoundtripProofs.C17_cbor_enc_idle. Qed.
 Print Assumptions C17_cbor_enc_idle.
+
+(* JSON encoder: after any well-formed document the two flag stacks (first element /
+   inside array) are idle again; from ANY state they are restored up to the enclosing
+   array's first-flag, which is cleared as for any value. *)
+Theorem C17_json_enc_idle : forall (ffmt : Z -> Z -> bytes) cfg t, wf_tree t = true ->
+  (ignore_invalid cfg = true \/ tree_finite t = true) ->
+  exists e', json_run cfg ffmt (jenc0 None) (flatten t) 0 = JRun e' None /\ je_first e' = bs0 /\ je_inarr e' = bs0.
+Proof. exact EncProofs.C17_json_enc_idle. Qed.
+Print Assumptions C17_json_enc_idle.
+
+Theorem C17_json_enc_any_state : forall (ffmt : Z -> Z -> bytes) cfg t,
+  (ignore_invalid cfg = true \/ tree_finite t = true) ->
+  forall e i, w_fail (je_w e) = None ->
+  exists e', json_run cfg ffmt e (flatten t) i = JRun e' None /\
+     je_first e' = after_val e /\ je_inarr e' = je_inarr e /\ w_fail (je_w e') = None.
+Proof. intros ffmt cfg t H. exact (json_enc_tree_exact ffmt cfg t H). Qed.
+Print Assumptions C17_json_enc_any_state.
